@@ -20,7 +20,7 @@ HARNESSES = [
     {"fn": "h_file_clean", "cases": ["good", "good/E", "good/H", "good:hex/E", "trunc", "trunc/E", "junk"],
      "quick_cases": ["good", "good:hex/E", "trunc/E", "junk"], "timeout": {"quick": 90, "thorough": 300}},
 ]
-BOUNDS = {"fault step": "symbolic in 0..6 (0 = no fault) over the output operations open, write, flush, close, print",
+BOUNDS = {"fault step": "symbolic in 0..4 (0 = no fault; --file: 0..3, --hex: 0..5) over the output operations open, write, flush, close, print; errno symbolic in {ENOSPC, EPIPE, EIO}",
           "log": "one (case 'two': two) PEL(s) with symbolic severity class {0x00,0x40} and symbolic hidden / report flag "
                  "bits; truncated and junk variants",
           "options": "--clean symbolic; -E / -H / -s per case"}
@@ -44,11 +44,18 @@ def _content(kind, eid, sev, flags):
 def _sevflags():
     """severity and action flags of the log: the three selection-relevant flag bits and four severity
     classes are symbolic (rendering every severity / flag name would only multiply paths)"""
-    b, c = sym_int("hid", 0, 1), sym_int("rep", 0, 1)
+    small = CASE.startswith("two") or ":hex" in CASE     # fewer log variants where the output has more steps
+    b = sym_int("hid", 0, 1)
+    c = sym_int("rep", 0, 1) if not small else 1
     flags = b * 0x4000 + c * 0x2000 + 0x0800
-    si = sym_int("sevclass", 0, 1)
-    sev = sym_ite(si == 0, 0x00, 0x40)
+    si = sym_int("sevclass", 0, 1) if not small else 1
+    sev = sym_ite(si == 0, 0x00, 0x40) if not small else 0x40
     return sev, flags
+
+
+def _kind():
+    """errno of the injected fault: 0 ENOSPC, 1 EPIPE (BrokenPipeError), 2 EIO - forks only where a fault is raised"""
+    return sym_int("errno", 0, 2)
 
 
 def _opts():
@@ -69,12 +76,12 @@ def h_json_clean() -> bool:
     """
     kind = CASE.split("/")[0]
     sev, flags = _sevflags()
-    fault = sym_int("fault", 0, 6)
+    fault = sym_int("fault", 0, 4)
     o = _opts()
     files = [("a.pel", _content("good" if kind == "two" else kind, 0x50000001, sev, flags))]
     if kind == "two":
         files.append(("b.pel", _pel(0x50000002, 0x40, 0xA800)))
-    w = World(files=files, fault_at=fault, dirs=["/out"])
+    w = World(files=files, fault_at=fault, dirs=["/out"], fault_kind=_kind())
     ns = Namespace(**dict(ARG_DEFAULTS, path="/pels", json=True, output_dir="/out", **o))
     try:
         status = run_main(peltool, w, ns)
@@ -113,9 +120,9 @@ def h_file_clean() -> bool:
     parts = CASE.split("/")[0].split(":")
     kind, hexmode = parts[0], len(parts) > 1
     sev, flags = _sevflags()
-    fault = sym_int("fault", 0, 5 if not hexmode else 8)
+    fault = sym_int("fault", 0, 3 if not hexmode else 4)
     o = _opts()
-    w = World(files=[("one.pel", _content(kind, 0x50000001, sev, flags))], fault_at=fault)
+    w = World(files=[("one.pel", _content(kind, 0x50000001, sev, flags))], fault_at=fault, fault_kind=_kind())
     ns = Namespace(**dict(ARG_DEFAULTS, file="/pels/one.pel", hex=hexmode, **o))
     try:
         status = run_main(peltool, w, ns)
